@@ -39,13 +39,21 @@ def kv (ws : List String) (k : String) : Option String :=
 
 def kvNat (ws : List String) (k : String) : Option Nat := (kv ws k).bind String.toNat?
 
-/-- the nominal handshake of the abstract engine (TLS 1.3 shaped, a tenth of the real sizes): client hello,
-server flight, client finished; the server then sends `nominalPost` cells of session tickets. The outcome
-lines do not depend on the sizes (`Props.C15.handshake_completes` holds for every tape). -/
-def nominalTape : List Side :=
+/-- the nominal handshakes of the abstract engine (a tenth of the real sizes). The outcome lines do not depend
+on the sizes (`Props.C15.handshake_completes` holds for every tape), but the *shape* matters for who writes the
+last handshake message:
+* a rustls acceptor negotiates TLS 1.3: client hello, server flight, client finished (the CLIENT writes last);
+  then `post13` cells of session tickets from the server;
+* a native-tls acceptor negotiates at most TLS 1.2: client hello, server flight, client key exchange + finished,
+  server finished (the SERVER writes last), no post-handshake cells. -/
+def tape13 : List Side :=
   List.replicate 52 Side.client ++ List.replicate 150 Side.server ++ List.replicate 8 Side.client
 
-def nominalPost : Nat := 50
+def post13 : Nat := 50
+
+def tape12 : List Side :=
+  List.replicate 52 Side.client ++ List.replicate 150 Side.server ++ List.replicate 30 Side.client ++
+  List.replicate 25 Side.server
 
 def parseSteps : List String → Option (List (String × Step × Step))
   | [] => some []
@@ -98,7 +106,11 @@ def runTls (lines : List String) : List String :=
         { lim, buffering := !astream && buf == "1", astream, dr, dw,
           dfh := if astream then 0 else dfh, df := if astream then 0 else df,
           fuel := 4611686018427387904 }
-      let y := Sys.init sc (be == "rustls") nominalTape nominalPost (steps.map (·.2.1)) (steps.map (·.2.2))
+      let (bec, bes) := match be.splitOn "-" with
+        | [a, b] => (a, b)
+        | _ => (be, be)
+      let (tape, post) := if bes == "rustls" then (tape13, post13) else (tape12, 0)
+      let y := Sys.initX sc (bec == "rustls") (bes == "rustls") tape post (steps.map (·.2.1)) (steps.map (·.2.2))
       let (y, e) := run 100000000 y
       if y.panicked then lines.map fun _ => "panic"
       else outLines ("hs" :: steps.map (·.1)) y.c.res y.s.res e
